@@ -41,7 +41,7 @@ fn ghost_key_is(sk: &[u8; 40]) -> bool {
 /// C09: the four halves use the right direction constants and the session key; the client's encrypter
 /// pairs with the server's decrypter and vice versa; the two directions use different constants.
 #[kani::proof]
-#[kani::unwind(130)]
+#[kani::unwind(80)]
 #[kani::stub(core::str::from_utf8, verif_oracle::from_utf8_model)]
 #[kani::stub(crate::wrath_header::inner_crypto::InnerCrypto::new, ich::stub_inner_new)]
 fn c09_directions() {
@@ -722,7 +722,7 @@ fn p20_eq(a: &[u8; 20], b: &[u8; 20]) -> bool {
 /// C06: the client's proof is SHA-1(name | 0u32 | own seed LE | server seed LE | session key); the seed
 /// accessor returns the 4-byte draw and that value is the one used.
 #[kani::proof]
-#[kani::unwind(130)]
+#[kani::unwind(80)]
 #[kani::stub(core::str::from_utf8, verif_oracle::from_utf8_model)]
 #[kani::stub(crate::wrath_header::inner_crypto::InnerCrypto::new, crate::wrath_header::inner_crypto::verif_h::stub_inner_new)]
 fn c06_wrath_client_msg() {
@@ -744,7 +744,7 @@ fn c06_wrath_client_msg() {
 
 /// C06: the server hands out header crypto exactly when the presented proof equals the value for its own seed.
 #[kani::proof]
-#[kani::unwind(130)]
+#[kani::unwind(80)]
 #[kani::stub(core::str::from_utf8, verif_oracle::from_utf8_model)]
 #[kani::stub(crate::wrath_header::inner_crypto::InnerCrypto::new, crate::wrath_header::inner_crypto::verif_h::stub_inner_new)]
 fn c06_wrath_server_decision() {
